@@ -69,6 +69,7 @@ impl Check for C18 {
         let cfg = Cfg::draw(&mut ft);
         let fmt = if wt.chance(1, 2) { SerializationFormat::Json } else { SerializationFormat::Yaml };
         let use_lef = wt.chance(1, 3);
+        let refused_first = wt.chance(1, 4);
         if use_lef {
             let (text, _sw) = crate::gen_lef::gen_lef_text(&mut wt, false);
             let io = new_io(ft, inp.want_sample);
@@ -92,6 +93,9 @@ impl Check for C18 {
             let nonempty = !lib.macros.is_empty() || !lib.sites.is_empty() || !lib.vias.is_empty();
             let art = super::c05::lef_artefact(&lib);
             let eq = |a: &lef21::LefLibrary, b: &lef21::LefLibrary| if a == b { None } else { Some(first_diff(a, b)) };
+            if refused_first {
+                refused_serialisation(fmt, &mut out);
+            }
             let (out, extra) = ser_files(&io, out, cfg, fmt, &lib, &eq, &art, "lef", inp.want_sample);
             return super::finish(out, &io, &wt, sd, cfg, extra, nonempty);
         }
@@ -105,6 +109,9 @@ impl Check for C18 {
         let nonempty = !lib.structs.is_empty();
         let arte = lib_artefact(&lib);
         let eq = |a: &GdsLibrary, b: &GdsLibrary| gds_equal(a, b);
+        if refused_first {
+            refused_serialisation(fmt, &mut out);
+        }
         let (mut out, extra) = ser_files(&io, out, cfg, fmt, &lib, &eq, &arte, "gds", inp.want_sample);
         let art = |lib: &GdsLibrary, more: Value| json!({"format": fmt_name(fmt), "library": lib_artefact(lib), "more": more});
         let v = |class: &str, sig: String, detail: String, more: Value| Violation { class: class.into(), sig, detail, artefact: art(&lib, more) };
@@ -190,6 +197,29 @@ impl Check for C18 {
 
 /// to_string->from_str and save->open (fault-free / benign / terminal) for any serialisable library type
 #[allow(clippy::too_many_arguments)]
+/// History step: an earlier call of the same helper, on this thread, that fails after it has produced some
+/// output (a map whose keys no markup format can spell as object keys, behind a few well-formed entries).
+/// The value is not a library and the outcome is not judged; the judged calls that follow must behave as
+/// if it had not happened.
+fn refused_serialisation(fmt: SerializationFormat, out: &mut RunOut) {
+    #[derive(serde::Serialize)]
+    struct Decoy {
+        name: String,
+        units: [f64; 2],
+        bad: std::collections::BTreeMap<(i32, i32), Vec<u8>>,
+    }
+    let mut bad = std::collections::BTreeMap::new();
+    bad.insert((1, 2), vec![3u8; 40]);
+    let d = Decoy { name: "decoy".into(), units: [1e-3, 1e-9], bad };
+    for f in [fmt, SerializationFormat::Json] {
+        match guard(|| f.to_string(&d)) {
+            Ok(Err(_)) => out.probes.hit("history:refused_serialisation_before_the_judged_calls"),
+            Ok(Ok(_)) => out.probes.hit("history:decoy_serialisation_accepted"),
+            Err(_) => out.probes.hit("history:decoy_serialisation_panicked"),
+        }
+    }
+}
+
 fn ser_files<T: serde::Serialize + serde::de::DeserializeOwned + layout21utils::SerdeFile>(io: &Io, mut out: RunOut, cfg: Cfg, fmt: SerializationFormat, lib: &T, eq: &dyn Fn(&T, &T) -> Option<String>, arte: &Value, kind: &str, want_sample: bool) -> (RunOut, u64) {
     let art = |more: Value| json!({"format": fmt_name(fmt), "kind": kind, "library": arte.clone(), "more": more});
     let fk = format!("{}:{}", fmt_name(fmt), kind);
